@@ -389,22 +389,56 @@ def part_names(ctx):
 
 
 # ---------------------------------------------------------------------------------- (5) cache histories
-def part_cache(ctx, tmp):
+def write_ktable(path, mol, T, P, wn, x, h5=False):
+    """a two-point k-table whose first coefficient is x[0,0,0] (the signature the histories recognise files by)"""
+    k = np.stack([x, x * 2.0], axis=-1)
+    w = np.array([0.25, 0.75])
+    if not h5:
+        with open(path, 'wb') as f:
+            pickle.dump(dict(name=mol, t=T, p=P / 1e5, bin_centers=wn, bin_edges=wn, kcoeff=k, weights=w, ngauss=2), f)
+        return
+    import h5py
+    with h5py.File(path, 'w') as f:
+        f['bin_centers'] = wn
+        f['bin_edges'] = wn
+        f['t'] = T
+        f['p'] = P / 1e5
+        f['p'].attrs['units'] = 'bar'
+        f['kcoeff'] = k
+        f['weights'] = w
+        f['ngauss'] = 2
+        f['mol_name'] = mol
+
+
+def part_cache(ctx, tmp, kt=False):
+    """kt: the same histories against KTableCache (k-table files; the mode is changed through
+    OpacityCache().set_interpolation, the one entry point the input file uses)"""
     from taurex.cache import OpacityCache, GlobalCache
+    from taurex.cache.ktablecache import KTableCache
     from taurex.opacity.pickleopacity import PickleOpacity
+    from taurex.opacity.ktables.picklektable import PickleKTable
     rng = ctx.rng
     mols = ['H2O', 'CH4', 'CO2']
     exprs, metas = [], []
-    for n in range(ctx.n(16, 160)):
+    for n in range(ctx.n(8, 80) if kt else ctx.n(16, 160)):
         # two directories; each molecule in at most one of {pickle, exo}, possibly also as HDF5 (which wins)
         dirs = []
         fid = 0
         for dn in range(2):
-            d = os.path.join(tmp, 'h%d_%d' % (n, dn))
+            d = os.path.join(tmp, '%s%d_%d' % ('kh' if kt else 'h', n, dn))
             os.makedirs(d)
             files = []
             for mi, mol in enumerate(mols):
                 T, P, wn, x = gen_table(rng)
+                if kt:
+                    # both k-table readers have the same priority: one file per molecule and directory
+                    kind = rng.choice(['none', 'kpickle', 'kh5'])
+                    if kind != 'none':
+                        write_ktable(os.path.join(d, mol + ('.R1.pickle' if kind == 'kpickle' else '_R1.h5')), mol,
+                                     T, P, wn, x, h5=(kind == 'kh5'))
+                        files.append((mi, 100, fid, float(x.ravel()[0])))
+                        fid += 1
+                    continue
                 kind = rng.choice(['none', 'pickle', 'exo', 'pickle+h5', 'h5'])
                 if 'pickle' in kind:
                     write_pickle(os.path.join(d, mol + '.R1.pickle'), mol, T, P, wn, x)
@@ -425,7 +459,7 @@ def part_cache(ctx, tmp):
         cur = None
         pending, last_mol, last_mode = [], 0, 'linear'
         for k in range(rng.randint(4, 14)):
-            o = rng.choice(['get', 'get', 'get', 'interp', 'memory', 'clear', 'path', 'add']) if cur is not None else 'path'
+            o = rng.choice(['get', 'get', 'get', 'interp', 'clear' if kt else 'memory', 'clear', 'path', 'add']) if cur is not None else 'path'
             if pending:
                 o = pending.pop(0)
             elif cur is not None and o == 'get' and rng.random() < 0.5:
@@ -457,8 +491,8 @@ def part_cache(ctx, tmp):
                 T, P, wn, x = gen_table(rng)
                 pth = os.path.join(tmp, 'add%d_%d.pickle' % (n, k))
                 os.makedirs(os.path.join(tmp, 'adds'), exist_ok=True)
-                pth = os.path.join(tmp, 'adds', '%s.%d_%d.pickle' % (mols[mi], n, k))
-                write_pickle(pth, mols[mi], T, P, wn, x)
+                pth = os.path.join(tmp, 'adds', '%s.%d_%d%s.pickle' % (mols[mi], n, k, 'k' if kt else ''))
+                (write_ktable if kt else write_pickle)(pth, mols[mi], T, P, wn, x)
                 m = rng.choice(['linear', 'exp'])
                 ops.append(('add', mi, pth, m, fid, float(x.ravel()[0])))
                 lits.append('Add %d %d %s' % (mi, fid, 'Linear' if m == 'linear' else 'Exp'))
@@ -467,10 +501,11 @@ def part_cache(ctx, tmp):
         sig = {f_: s_ for d_, fl in dirs for _, _, f_, s_ in fl}
         sig.update(added)
         # run on the implementation
-        oc = OpacityCache()
-        oc.clear_cache()
+        oc = KTableCache() if kt else OpacityCache()
         GlobalCache()['xsec_interpolation'] = 'linear'
         GlobalCache()['xsec_path'] = None
+        GlobalCache()['ktable_path'] = None
+        oc.clear_cache()
         ids = {}
         outs = []
         try:
@@ -485,7 +520,7 @@ def part_cache(ctx, tmp):
                     except Exception as e:
                         outs.append([2] if 'could not be loaded' in str(e) else [3, repr(e)])
                 elif op[0] == 'interp':
-                    oc.set_interpolation(op[1])
+                    OpacityCache().set_interpolation(op[1])
                     outs.append([0])
                 elif op[0] == 'memory':
                     oc.set_memory_mode(op[1])
@@ -494,18 +529,19 @@ def part_cache(ctx, tmp):
                     oc.clear_cache()
                     outs.append([0])
                 elif op[0] == 'path':
-                    oc.set_opacity_path(dirs[op[1]][0])
+                    (oc.set_ktable_path if kt else oc.set_opacity_path)(dirs[op[1]][0])
                     outs.append([0])
                 else:
-                    oc.add_opacity(PickleOpacity(op[2], interpolation_mode=op[3]))
+                    oc.add_opacity((PickleKTable if kt else PickleOpacity)(op[2], interpolation_mode=op[3]))
                     outs.append([0])
         finally:
-            oc.clear_cache()
             GlobalCache()['xsec_interpolation'] = None
+            GlobalCache()['ktable_path'] = None
+            oc.clear_cache()
         exprs.append('run_cache %s' % C.clist(lits))
-        metas.append(dict(outs=outs, rp=dict(part='cache history', operations=[o[:2] for o in ops],
+        metas.append(dict(outs=outs, rp=dict(part='k-table cache history' if kt else 'cache history', operations=[o[:2] for o in ops],
                                              directories=[[(m_, p_, f_) for m_, p_, f_, _ in fl] for _, fl in dirs]), nops=len(ops)))
-    for mt, out in zip(metas, C.run_cases('C14c', HEADER, exprs, shard=40)):
+    for mt, out in zip(metas, C.run_cases('C14k' if kt else 'C14c', HEADER, exprs, shard=40)):
         # object ids: the model numbers every object ever created, the harness numbers objects in order of first service
         bad = None
         remap = {}
@@ -520,10 +556,11 @@ def part_cache(ctx, tmp):
                 if remap.setdefault(m[1], i[1]) != i[1] or list(remap.values()).count(i[1]) > 1:
                     bad = 'operation %d: object identity differs from the model (loaded twice, or a stale object served)' % k
                     break
-        ctx.case(('C', repr(mt['rp']['operations'])), nontrivial=True,
-                 sample=dict(part='cache history', operations=mt['nops'], served=sum(1 for o in mt['outs'] if o[0] == 1)))
+        ctx.case(('K' if kt else 'C', repr(mt['rp']['operations'])), nontrivial=True,
+                 sample=dict(part=mt['rp']['part'], operations=mt['nops'], served=sum(1 for o in mt['outs'] if o[0] == 1)))
         if bad:
-            ctx.violation('cache-history', 'opacity cache: ' + bad, replay=mt['rp'])
+            ctx.violation('ktable-cache-history' if kt else 'cache-history',
+                          ('k-table cache: ' if kt else 'opacity cache: ') + bad, replay=mt['rp'])
         else:
             ctx.validated()
 
@@ -537,6 +574,7 @@ def run(ctx):
         part_cia(ctx, tmp)
         part_names(ctx)
         part_cache(ctx, tmp)
+        part_cache(ctx, tmp, kt=True)
     finally:
         import shutil
         shutil.rmtree(tmp, ignore_errors=True)
